@@ -75,7 +75,7 @@ func aGenTimes(t *rapid.T, p aProfile, label string, allowZero bool) (int, int) 
 	case r < 90:
 		return rapid.SampledFrom([]int{8, 9, 10, 20, 36, 37, 40, 70}).Draw(t, label+"Mid"), 0
 	case r < 95 && p.longTimes:
-		return rapid.SampledFrom([]int{1, 2}).Draw(t, label+"Min"), 1
+		return rapid.SampledFrom([]int{1, 1, 2, 2, 3, 1092, 1093, 2000, 65535}).Draw(t, label+"Min"), 1
 	case r < 97:
 		return rapid.SampledFrom([]int{300, 3600, 65535}).Draw(t, label+"Long"), 0
 	}
@@ -94,8 +94,8 @@ func aGenValue(t *rapid.T, k *mKey, keyIdx int) *aVal {
 		if v.Op == "incr" {
 			v.N = rapid.SampledFrom([]int64{1, -1, 2, 100, -100, 1 << 62, -(1 << 62), 9223372036854775807}).Draw(t, "incrBy")
 		} else if v.Op == "set" {
-			v.B = make([]byte, 8)
-			v.B[0] = rapid.Byte().Draw(t, "numSet")
+			// a number register may be set from a payload of 1..8 bytes (read little-endian, zero-extended)
+			v.B = rapid.SliceOfN(rapid.Byte(), 1, 8).Draw(t, "numSet")
 		}
 	case 2:
 		v.Op = rapid.SampledFrom([]string{"push", "push", "pop", "unset"}).Draw(t, "arrOp")
@@ -225,8 +225,10 @@ func aGenOps(t *rapid.T, e *aEnv, p aProfile, fresh *int) []aOp {
 	if r < p.timers+(98-p.timers)*58/100 {
 		// LOCK
 		if p.bursts && pct(t, "burst") < 3 {
-			if pct(t, "burstReentrant") < 25 {
+			if x := pct(t, "burstKind"); x < 20 {
 				return aGenReentrantBurst(t, e, db, key, fresh)
+			} else if x < 45 {
+				return aGenLongWaitScenario(t, e, db, key, fresh)
 			}
 			return aGenBurst(t, e, db, key, fresh)
 		}
@@ -411,6 +413,10 @@ func aGenOps(t *rapid.T, e *aEnv, p aProfile, fresh *int) []aOp {
 func aGenBurst(t *rapid.T, e *aEnv, db, key int, fresh *int) []aOp {
 	n := rapid.SampledFrom([]int{9, 12, 20, 70, 135, 140}).Draw(t, "burstN")
 	holders := pct(t, "burstHolders") < 40
+	if holders && pct(t, "burstHuge") < 50 {
+		// the holder queue switches to its map-indexed overflow part once the in-line slice (6,12,..,192) is full
+		n = rapid.SampledFrom([]int{200, 230, 260}).Draw(t, "burstHugeN")
+	}
 	mixedPrio := pct(t, "burstPrio") < 50
 	var ops []aOp
 	for i := 0; i < n; i++ {
@@ -427,6 +433,49 @@ func aGenBurst(t *rapid.T, e *aEnv, db, key int, fresh *int) []aOp {
 		}
 		ops = append(ops, op)
 	}
+	if holders && n > 130 {
+		// release holds that sit in the map-backed part of the holder queue (not at its head), unlock them again
+		// and try to lock with their ids again
+		for i := rapid.IntRange(1, 4).Draw(t, "burstRelease"); i > 0; i-- {
+			victim := ops[rapid.IntRange(n-30, n-1).Draw(t, "burstVictim")]
+			ops = append(ops, aOp{K: "unlock", C: 0, Db: db, Key: key, Id: victim.Id})
+			ops = append(ops, aOp{K: "unlock", C: 0, Db: db, Key: key, Id: victim.Id})
+			if pct(t, "burstRelock") < 50 {
+				ops = append(ops, aOp{K: "lock", C: 0, Db: db, Key: key, Id: victim.Id, Cnt: 0xffff, E: 30})
+			}
+		}
+	}
+	return ops
+}
+
+// aGenLongWaitScenario: waits long enough to reach the long-wait table (> 8 re-checks, ~45 s) that leave it
+// again by cancel or grant, several times on one key, so that long-wait queues are recycled.
+func aGenLongWaitScenario(t *rapid.T, e *aEnv, db, key int, fresh *int) []aOp {
+	id := func() int { *fresh++; return 100 + *fresh }
+	long := func() int { return rapid.SampledFrom([]int{70, 100, 100, 150, 200}).Draw(t, "lwT") }
+	step := func() aOp {
+		return aOp{K: "tick", N: rapid.SampledFrom([]int{46, 47, 50, 60}).Draw(t, "lwTick"), J: pct(t, "lwJump") < 20}
+	}
+	h := id()
+	ops := []aOp{{K: "lock", Db: db, Key: key, Id: h, Cnt: 0, E: 3600}}
+	holder := h
+	for round := rapid.IntRange(2, 4).Draw(t, "lwRounds"); round > 0; round-- {
+		w := id()
+		ops = append(ops, aOp{K: "lock", C: 1, Db: db, Key: key, Id: w, Cnt: 0, T: long(), E: 3600})
+		if pct(t, "lwSecond") < 50 {
+			ops = append(ops, aOp{K: "lock", C: 1, Db: db, Key: key, Id: id(), Cnt: 0, T: long() + 60, E: 3600})
+		}
+		ops = append(ops, step())
+		switch pct(t, "lwLeave") % 3 {
+		case 0:
+			ops = append(ops, aOp{K: "unlock", Db: db, Key: key, Id: w, F: ufCANCEL})
+		case 1:
+			ops = append(ops, aOp{K: "unlock", Db: db, Key: key, Id: holder})
+			holder = w
+		default:
+		}
+	}
+	ops = append(ops, step(), step())
 	return ops
 }
 
